@@ -511,18 +511,150 @@ def r18d(ctx, run):
         cn, hn = [f[0] for f in c[0]], [f[0] for f in h[0]]
         run.check(cn == hn, "%s:%d" % (te.file, h[1]), "%s record: field names %s" % (k, cn), "BuiltinKind::to_expected", "names:" + k, te.file, h[1],
                   "`%s` record: field names differ: meta.capy %s vs to_expected %s" % (k, cn, hn))
-        # semantic order of the writer
+        # what each written value is computed FROM (lexically resolved provenance, not the spelling of local names) against the field it lands in
         flat_names = []
         for f in c[0]:
             flat_names += [f[0]] * len(capy_widths(f[1]))
-        sems = [SEM.get(sem_of(x[1]), sem_of(x[1])) for x in w[0]]
-        okk = len(sems) == len(flat_names) and all(s == n or (n in ("variants", "members") and s in ("variants", "members", "variant_enum_ty_id", "member_info_id")) or
-                                                    (k == "layout" and s in ("size", "align", "len") and n in ("size", "align"))
-                                                    for s, n in zip(sems, flat_names))
-        if k == "layout":
-            okk = [sem_of(x[1]) for x in w[0]] == ["size", "align"]
-        run.check(okk, site, "%s record: writer field order %s" % (k, sems), "compile_type_info", "order:" + k, ti.file, w[1],
-                  "`%s` record: the compiler writes %s in this order but meta.capy's fields are %s" % (k, sems, flat_names))
+        sems = writer_sems(ctx, k)
+        okk = sems is not None and len(sems) == len(flat_names) and all(sem_matches(sv, n, k) for sv, n in zip(sems, flat_names))
+        run.check(okk, site, "%s record: each written value comes from the source its field names: %s" % (k, sems), "compile_type_info", "order:" + k, ti.file, w[1],
+                  "`%s` record: the values written are computed from %s (in this order) but meta.capy's fields are %s: a field holds something else than it names"
+                  % (k, sems, flat_names))
+
+
+_WS = {}
+
+
+def writer_sems(ctx, kind):
+    """per record kind: for every value pushed (in order), the semantic source it is computed from"""
+    if "all" not in _WS or _WS.get("syn") is not ctx.syn:
+        _WS.clear()
+        _WS["syn"] = ctx.syn
+        _WS["all"] = {}
+        import prov
+        for fname in ("compile_type_info", "compile_memory_layouts"):
+            f = ctx.syn.fn(fname, "codegen/src/compiler/ty_info.rs")
+            P = prov.Prov(f)
+            pushes, fors, defs = [], [], []
+
+            def on(n, sc):
+                if n.get("k") == "for":
+                    fors.append((n, sc))
+                if n.get("k") == "mcall" and n["m"] in ("push_num", "push_reloc_ptr") and n["r"].get("k") == "path":
+                    pushes.append((n, sc))
+                if n.get("k") == "call" and canon(n["f"]).rsplit("::", 1)[-1] == "define":
+                    defs.append((n, sc))
+                if n.get("k") == "mcall" and n["m"] == "define_array":
+                    defs.append((n, sc))
+            P.visit(on)
+
+            def same_binding(e1, s1, e2, s2):
+                if e1.get("k") != "path" or e2.get("k") != "path":
+                    return False
+                b1, b2 = s1.lookup(e1["p"])[0], s2.lookup(e2["p"])[0]
+                return b1 is not None and b1 is b2
+
+            def data_source(arr_name):
+                """fields the rows pushed onto data array `arr_name` are built from: the iterated expressions of the loops that push onto it"""
+                out = set()
+                for fo, fsc in fors:
+                    if any(x.get("k") == "mcall" and x["m"] in ("push_num", "push_reloc_ptr") and canon(x["r"]) == arr_name for x in walk(fo["b"])):
+                        out |= {t for t in P.tags(fo["e"], fsc) if t.startswith("field:")}
+                return out
+
+            def sem(n, sc):
+                arg = n["a"][0]
+                T = P.tags(arg, sc)
+                fields = sorted(t.split(".", 1)[1] for t in T if t.startswith("field:"))
+                if n["m"] == "push_reloc_ptr":
+                    src = set()
+                    for d, dsc in defs:
+                        args = d["a"]
+                        if any(same_binding(arg, sc, a, dsc) for a in args):
+                            if d.get("k") == "mcall":
+                                src |= data_source(canon(d["r"]))
+                            else:
+                                for a in args:
+                                    if not same_binding(arg, sc, a, dsc):
+                                        src |= {t for t in P.tags(a, dsc) if t.startswith("field:")}
+                    fs = sorted(t.split(".", 1)[1] for t in src)
+                    return "ptr->" + ",".join(fs) if fs else "ptr->?"
+                if "m:discriminant_offset" in T:
+                    return "discriminant_offset"
+                if "arith" in T or "branch" in T:
+                    return "computed{%s}" % ",".join(sorted(t for t in T if t[:2] in ("m:", "f:")))
+                if "m:offsets" in T:
+                    return "offset"
+                if "m:to_previous_type_id" in T or "m:to_type_id" in T:
+                    return "tyid:" + ",".join(fields)
+                if "m:len" in T:
+                    return "len:" + ",".join(fields)
+                ms = sorted(t[2:] for t in T if t.startswith("m:") and not t.startswith("m:."))
+                if fields and not ms:
+                    return "field:" + ",".join(fields)
+                if T == {"const"}:
+                    return "const"
+                if ms:
+                    return "call:" + ",".join(ms)
+                return "?" + ",".join(sorted(T))
+            semof = {id(n): sem(n, sc) for n, sc in pushes}
+
+            def seq(block, arr):
+                """pushes onto `arr` in execution order; the two sides of an if give alternatives position by position"""
+                out = []
+                for st in block["s"]:
+                    e = st.get("e") if st.get("k") == "expr" else None
+                    if e is None:
+                        continue
+                    if e.get("k") == "if":
+                        a = seq(e["t"], arr)
+                        b = seq(e["e"], arr) if (e.get("e") or {}).get("k") == "block" else []
+                        if len(a) != len(b):
+                            out.append("?branches-differ-in-length")
+                        else:
+                            out.extend(x if x == y else "alt(%s|%s)" % tuple(sorted((x, y))) for x, y in zip(a, b))
+                        continue
+                    if e.get("k") == "mcall" and id(e) in semof and canon(e["r"]) == arr:
+                        out.append(semof[id(e)])
+                return out
+            by = {}
+            arrs = {canon(n["r"]) for n, sc in pushes}
+            for arr in arrs:
+                # the innermost block that holds this array's pushes as direct statements (arm body / loop body)
+                blocks = [x for x in walk(f.body) if x.get("k") == "block" and any(st.get("k") == "expr" and isinstance(st.get("e"), dict) and id(st["e"]) in semof
+                                                                                   and canon(st["e"]["r"]) == arr for st in x["s"])]
+                blocks = [x for x in blocks if not any(y is not x and any(z is x for z in walk(y)) for y in blocks)]
+                if len(blocks) == 1:
+                    by[arr] = seq(blocks[0], arr)
+                else:
+                    by[arr] = ["?pushes-in-%d-blocks" % len(blocks)]
+            _WS["all"][fname] = by
+    allp = _WS["all"]
+    name = {"member": "member_info_data", "layout": None}.get(kind, kind + "_info_data")
+    if kind == "layout":
+        v = allp["compile_memory_layouts"].get("data")
+    else:
+        v = allp["compile_type_info"].get(name)
+    if v is None:
+        return None
+    return list(v)
+
+
+FIELD_SRC = {  # meta.capy field -> what the written value must be computed from
+    "len": ("field:size",), "sub_ty": ("tyid:sub_ty",), "mutable": ("field:mutable",), "discriminant": ("field:discriminant",), "error_ty": ("tyid:error_ty",),
+    "payload_ty": ("tyid:payload_ty",), "discriminant_offset": ("discriminant_offset",), "ty": ("tyid:ty",), "offset": ("offset",), "name": ("ptr->name",),
+    "is_non_zero": ("const",), "size": ("call:size",), "align": ("call:align",),
+}
+
+
+def sem_matches(sv, field, kind):
+    if field in ("variants", "members"):
+        # a slice = (len, pointer to the rows built from the same list)
+        return sv in ("len:" + field, "ptr->" + field)
+    if sv == "alt(const|discriminant_offset)":
+        # an optional without a tag (non-zero representation) has no discriminant: the constant 0 stands in on that side
+        return field == "discriminant_offset"
+    return sv in FIELD_SRC.get(field, ())
 
 
 # ---- R18.f kind chains ---------------------------------------------------------------------------
